@@ -176,16 +176,20 @@ class Check(BaseCheck):
             if im["volume"][0] != "err":
                 return core.Violation("volume", "closed unoriented mesh: no ValueError", case)
         else:
-            ref = np.sum(np.einsum("ij,ij->i", v0, np.cross(v1, v2))) / 6
-            if abs(im["volume"][1] - ref) > 1e-9 * max(abs(ref), np.abs(v).max() ** 3 * 1e-3):
+            ctr = v.mean(axis=0)          # reference on centred coordinates (the divergence-theorem sum is translation invariant for closed meshes)
+            ref = np.sum(np.einsum("ij,ij->i", v0 - ctr, np.cross(v1 - ctr, v2 - ctr))) / 6
+            size = float(np.ptp(v, axis=0).max())
+            if abs(im["volume"][1] - ref) > 1e-9 * max(abs(ref), size ** 3 * 1e-3) * max(1.0, np.abs(v).max() / size):
                 return core.Violation("volume", "volume %.10g vs divergence-theorem sum %.10g" % (im["volume"][1], ref), case)
             with core.quiet():
                 vt = TriaMesh(v + np.array([3.0, -2.0, 5.0]), t).volume()
                 vf = TriaMesh(v, t[:, [0, 2, 1]]).volume()
-            if abs(vt - ref) > 1e-7 * max(abs(ref), 1.0) or abs(vf + ref) > 1e-9 * max(abs(ref), 1e-9):
+            if abs(vt - ref) > 1e-7 * max(abs(ref), size ** 3 * 1e-3) * max(1.0, np.abs(v).max() / size) or abs(vf + im["volume"][1]) > 1e-9 * max(abs(ref), 1e-9):
                 return core.Violation("volume", "volume not translation invariant / does not flip sign with orientation", case)
         nrm = im["normals"]
-        if np.max(np.abs(np.linalg.norm(nrm, axis=1) - 1)) > 1e-9 or np.max(np.abs(np.einsum("ij,ij->i", nrm, v1 - v0))) > 1e-9 * np.abs(v1 - v0).max() \
+        if np.min(np.linalg.norm(cr, axis=1)) < 4 * np.finfo(float).eps:
+            return None          # triangles below the absolute 2^-52 guard of the kernels (treated as degenerate by design): outside the quantifier
+        if np.max(np.abs(np.linalg.norm(nrm, axis=1) - 1)) > 1e-9 or np.max(np.abs(np.einsum("ij,ij->i", nrm, v1 - v0)) / np.linalg.norm(v1 - v0, axis=1)) > 1e-9 * max(1.0, np.abs(v).max() / np.linalg.norm(v1 - v0, axis=1).min() * 1e-4) \
                 or np.min(np.einsum("ij,ij->i", nrm, cr)) <= 0:
             return core.Violation("tria_normals", "normals not unit / orthogonal / following the winding", case)
         q = im["qual"]
